@@ -151,6 +151,16 @@ class walk_tree(object):
                                         err_str = 'Mandatory segment "%s" (%s) missing' % (sibling.name, sibling.id)
                                         self.mandatory_segs_missing.append(
                                             (sibling, fake_seg, '3', err_str, seg_count, cur_line, ls_id))
+                                    elif orig_node is child \
+                                            and sibling.is_loop() and sibling.usage == 'R' and len(sibling) > 0 \
+                                            and sibling.get_first_node().is_segment() \
+                                            and self.counter.get_count(sibling.x12path) < 1:
+                                        # ... and so are required child loops
+                                        first_seg = sibling.get_first_node()
+                                        fake_seg = pyx12.segment.Segment('%s' % (first_seg.id), '~', '*', ':')
+                                        err_str = 'Mandatory loop "%s" (%s) missing' % (sibling.name, sibling.id)
+                                        self.mandatory_segs_missing.append(
+                                            (first_seg, fake_seg, '3', err_str, seg_count, cur_line, ls_id))
                                 (
                                     node1, push_node_list) = self._goto_seg_match(node, seg_data,
                                                                                   errh, seg_count, cur_line, ls_id)
